@@ -108,7 +108,8 @@ def arg_menu():
     a1 = np.array([1.0, 2.0])
     return [((1.0,), {}), ((float("1.0"),), {}), ((2.0,), {}), ((a1,), {}), ((np.array([1.0, 2.0]),), {}),
             ((np.array([1.0, 3.0]),), {}), (({"x": 1.0},), {}), (({"x": 1.0},), {}), (({"x": 2.0},), {}),
-            ((1.0,), {"k": 2}), ((1.0,), {"k": 3}), ((np.array([1.0, 2.0, 3.0]),), {})]
+            ((1.0,), {"k": 2}), ((1.0,), {"k": 3}), ((np.array([1.0, 2.0, 3.0]),), {}),
+            ((None,), {}), (({"y": 1.0},), {})]  # the last two make the function raise (TypeError / KeyError)
 
 
 def same_value(a, b):
@@ -139,8 +140,20 @@ def check_calls(wname, seq):
         w = wrappers_for_calls()[wname]()
         for step, i in enumerate(seq):
             a, k = menu[i]
-            got = w(*a, **k)
-            want = raw(*a, **k)
+            try:
+                want = ("ok", raw(*a, **k))
+            except Exception as e:
+                want = ("exc", type(e).__name__)
+            try:
+                got = ("ok", w(*a, **k))
+            except Exception as e:
+                got = ("exc", type(e).__name__)
+            if want[0] == "exc" or got[0] == "exc":
+                if got != want:
+                    return [FW.violation(PROP, "calls", ("cached" if "cached" in wname else wname.split("(")[0]) + " wrapper", "wrong-exception-behaviour", args,
+                                         {"step": step, "got": repr(got)[:80], "expected": repr(want)[:80]})]
+                continue
+            got, want = got[1], want[1]
             if not same_value(got, want):
                 return [FW.violation(PROP, "calls", wname.split("(")[0] + " wrapper", "wrong-return-value", args,
                                      {"step": step, "got": repr(got)[:80], "expected": repr(want)[:80]})]
@@ -339,7 +352,7 @@ def run(tier, seed):
         acc.merge(a)
     ev = sum(acc.c.get(k, 0) for k in ("wrapper_words", "call_sequences", "expression_evaluations", "aggregator_streams"))
     acc.samples = [{"word": ["cached", ["named", "n1"], "serializable"], "base": "lambda"},
-                   {"wrapper": "cached(named)", "calls": "every sequence of <=%d calls over 12 argument tuples" % maxlen_calls},
+                   {"wrapper": "cached(named)", "calls": "every sequence of <=%d calls over 14 argument tuples (two of which make the function raise)" % maxlen_calls},
                    {"expr": exprs[len(exprs) // 2], "orders": "all 6 orders of dict / attribute / bare-scalar records"}]
     cov = {
         "evaluations": ev,
@@ -347,7 +360,7 @@ def run(tier, seed):
         "rule": "(i) every word of length <=4 over {serializable, cached, named(n1), named(n2)} applied to a lambda, a def "
                 "and a string: class, name, == and hash must depend only on the set of wrappers; a name applied to an "
                 "already named function must raise ValueError (def and string carry an implicit name once wrapped); (ii) "
-                "every sequence of <=%d calls over 12 argument tuples (identical / equal-but-distinct / different scalars, "
+                "every sequence of <=%d calls over 14 argument tuples (two of which make the function raise) (identical / equal-but-distinct / different scalars, "
                 "arrays, dicts, keyword arguments) through 6 wrappers vs the bare function; (iii) %d expressions of the "
                 "grammar evaluated through the library on dict, attribute and bare-scalar records in all 6 orders vs "
                 "Python's eval; (iv) 4 aggregators built from strings vs functions on every stream of <=%d records (row-wise "
